@@ -180,7 +180,7 @@ def deliberate_rejection(node, e):
     if node[0] != 'op':
         return None
     fname = node[1]
-    dts = ''.join(sorted(set(top_dtypes(node))))
+    dts = ''.join(sorted(set(top_dtypes(node) + scalar_dtypes(node))))
     msg = str(e)
     if fname in _ORDER and 'c' in dts and isinstance(e, ValueError) and 'total order' in msg:
         return 'complex-order'
@@ -207,6 +207,20 @@ def top_dtypes(node):
     return [l[3] for l in leaves(node)]
 
 
+def scalar_dtypes(node):
+    'dtype chars of python / numpy scalar literals that are direct arguments of the call'
+    out = []
+    if node[0] == 'op':
+        for a in node[2]:
+            if a[0] == 'lit' and type(a[1]) in (bool, int, float):
+                out.append('bif'[(bool, int, float).index(type(a[1]))])
+            elif a[0] == 'cplx':
+                out.append('c')
+            elif a[0] == 'npscalar':
+                out.append(a[1])
+    return out
+
+
 # ------------------------------------------------------------------ comparison
 
 def _describe(a):
@@ -226,9 +240,7 @@ def is_finite(ref):
 
 def _flat_outputs(x):
     'a NumPy call returns an array, a scalar, a shape tuple, or a tuple of arrays (divmod, eig, eigh)'
-    if isinstance(x, tuple):
-        if len(x) == 0 or all(isinstance(i, (int, numpy.integer)) for i in x):
-            return [x]
+    if isinstance(x, tuple) and len(x) == 2 and not all(type(i) is int for i in x):
         return list(x)
     return [x]
 
@@ -255,7 +267,10 @@ def compare_values(got, ref, fname, iout, operand_at_point):
 
 
 def compare_eig(fname, gots, refs, a):
-    'decomposition check for eig/eigh at one point: gots = (w, v) from nutils, refs from numpy, a the matrix'
+    '''eig / eigh at one point: gots = (w, v) from nutils, refs = numpy's, a = the matrix.
+    eigh: eigenvalues ascending (documented) are compared directly, eigenvectors up to a unit
+    factor per column. eig: order and scaling are LAPACK details and the result kind is value
+    dependent, so (w, v) is judged as a decomposition of a with the same spectrum.'''
     w, v = (numpy.asarray(g) for g in gots)
     rw, rv = (numpy.asarray(r) for r in refs)
     if w.shape != rw.shape or v.shape != rv.shape:
@@ -265,10 +280,17 @@ def compare_eig(fname, gots, refs, a):
             return 'dtype', 'eigh kinds {} {} != numpy {} {}'.format(w.dtype, v.dtype, rw.dtype, rv.dtype)
         if not numpy.allclose(w, rw, rtol=1e-8, atol=1e-10):
             return 'value', 'eigenvalues {} != numpy {}'.format(_describe(w), _describe(rw))
-    else:
-        key = lambda z: (round(z.real, 7), round(z.imag, 7))
-        ws = numpy.array(sorted(numpy.ravel(w).astype(complex), key=key)) if w.ndim == 1 else None
-        if w.ndim == 1 and not numpy.allclose(ws, numpy.array(sorted(numpy.ravel(rw).astype(complex), key=key)), rtol=1e-8, atol=1e-10):
+        overlap = abs(numpy.einsum('...ij,...ij->...j', numpy.conjugate(rv), v))
+        if not numpy.allclose(overlap, 1, rtol=1e-8):
+            return 'value', 'eigenvectors {} != numpy {} (up to a unit factor per column)'.format(_describe(v), _describe(rv))
+        return None
+    if space.kindchar(w.dtype) not in 'fc' or space.kindchar(v.dtype) not in 'fc':
+        return 'dtype', 'eig kinds {} {}'.format(w.dtype, v.dtype)
+    key = lambda z: (round(z.real, 7), round(z.imag, 7))
+    W = w.reshape(-1, w.shape[-1]).astype(complex)
+    RW = rw.reshape(-1, w.shape[-1]).astype(complex)
+    for x, y in zip(W, RW):
+        if not numpy.allclose(sorted(x, key=key), sorted(y, key=key), rtol=1e-8, atol=1e-9):
             return 'value', 'eigenvalues {} != numpy {}'.format(_describe(w), _describe(rw))
     a = numpy.asarray(a)
     if not numpy.allclose(a @ v, v * w[..., None, :], rtol=1e-8, atol=1e-9):
@@ -295,7 +317,19 @@ class Outcome:
 
 
 def _key(cat, case):
-    return '{}:{}:{}'.format(cat, case['func'], case['tag'])
+    return '{}:{}:{}'.format(cat, case['func'], case.get('dyntag') or case['tag'])
+
+
+def _dyntag(ctx, case, vals):
+    '''some input classes depend on operand VALUES (still a pure function of the input): numpy.interp
+    documents left/right for x strictly outside [xp[0], xp[-1]]; x exactly on the first or last knot is its own class'''
+    node = case['expr']
+    if case['func'] == 'numpy.interp' and node[0] == 'op' and node[2][0][0] == 'arr' and node[2][1][0] in ('lit', 'np'):
+        x = vals[repr(node[2][0])]
+        xp = node[2][1][1] if node[2][1][0] == 'lit' else node[2][1][2]
+        if xp and ((x == xp[0]).any() or (x == xp[-1]).any()):
+            return case['tag'] + ':x-on-end-knot'
+    return None
 
 
 def prepare(ctx, case):
@@ -318,6 +352,9 @@ def prepare(ctx, case):
             except Exception as e:
                 nperr = e
                 break
+    if nperr is not None and isinstance(nperr, IndexError) and any(l[4] in ('idx', 'nidx') and l[1] != 'raw' for l in lvs):
+        # a function-array index that leaves the axis: numpy's error is value dependent (per point), not a shape class
+        return Outcome('skip-nonshape', what='{}: {}'.format(type(nperr).__name__, nperr))
     if nperr is not None and not numpy_shape_reason(nperr):
         return Outcome('skip-nonshape', what='{}: {}'.format(type(nperr).__name__, nperr))
     if nperr is None and not all(is_finite(r) for r in refs):
@@ -372,7 +409,7 @@ def prepare(ctx, case):
         if case['func'] == 'numpy.linalg.eig':
             ok = o.dtype in (float, complex)
         if not ok:
-            return Outcome('violation', _key('dtype', case) + ':' + ''.join(top_dtypes(node)) + '>' + space.kindchar(numpy.dtype(o.dtype)),
+            return Outcome('violation', _key('dtype', case),
                            'built array has dtype {} but numpy gives {}'.format(getattr(o.dtype, '__name__', o.dtype), r.dtype))
     out = Outcome('pending')
     out.outs = outs
@@ -419,14 +456,23 @@ def finish(ctx, case, out, values):
         if bad:
             cat, text = bad
             key = _key(cat, case)
-            if cat == 'dtype':
-                key += ':' + ''.join(top_dtypes(node))
             return Outcome('violation', key, 'at point {} of sample {}: {}'.format(p, ctx.name, text))
     return Outcome('ok')
 
 
+def refine(ctx, case):
+    'attach the value dependent input class, if any'
+    try:
+        vals = {repr(l): ctx.values(l) for l in leaves(case['expr'])}
+    except Exception:
+        return case
+    dyn = _dyntag(ctx, case, vals)
+    return dict(case, dyntag=dyn) if dyn else case
+
+
 def run_single(ctx, case):
     'the complete judgement of one case on one sample, evaluated on its own'
+    case = refine(ctx, case)
     out = prepare(ctx, case)
     if out.status != 'pending':
         return out
@@ -474,6 +520,7 @@ def run_batch(ctx, cases, batch=12):
         pending.clear()
 
     for case in cases:
+        case = refine(ctx, case)
         out = prepare(ctx, case)
         if out.status == 'pending':
             pending.append((case, out))
